@@ -84,4 +84,11 @@ CHECKS["C18"] = dict(
     note="Clock values are reduced to ms since the fake epoch by the driver; the random stream is opaque to the model; Linux only.",
 )
 
+CHECKS["C15"] = dict(
+    technique="TLA+ role table of all 45 WASI functions (WasiSig.tla) from which TLC enumerates argument tuples (all-valid vector, every single and every pair of deviations to role-specific boundary classes); each tuple executed through the proxy guest on both engines in supervised child processes and checked against the four post-conditions",
+    text="WasiSig.tla gives every parameter of every wasi_snapshot_preview1 function a role (descriptor, input / output buffer with its length parameter, result struct, iovec array, subscription and event arrays, count, length, 64-bit number, flags) and TLC generates about 9300 argument tuples with boundary values per role (pointers at 0 / size-4 / size-1 / size / 2^31 / 2^32-1; lengths and counts up to 2^28, 2^29, 2^31-1, 2^32-1 so that products overflow 32 bits; descriptors -1, std streams, preopen, file, directory, closed, 2^31-1). Each call runs on a fresh guest with a known descriptor table and a patterned 64 KiB memory; checked: the call returns an errno or a guest trap (never a Go runtime error, never hangs), every byte outside the regions the role table designates for output is unchanged, descriptors the call does not name keep their type, host allocation during the call stays below 32 MiB. The table's arity is compared with the implementation.",
+    design_ref="§4 C15",
+    note="Pairs, not the full product, of deviations; which errno is returned is C16's business; allocation measured with runtime.MemStats in a process that runs one call at a time.",
+)
+
 NOT_YET = "check not built yet in this round (work in progress; see DESIGN.md §4)"
